@@ -24,7 +24,8 @@ CHUNK = {"quick": 40, "thorough": 200}
 PROBES = ["op_mask", "op_base64", "op_base64url", "op_netbios", "op_netbiosu", "op_prepend", "op_append", "empty_affix",
           "term_header", "term_parameter", "term_print", "term_uri_append", "uri_append_nonempty_initial_uri",
           "static_parameter", "static_header", "encoder_repeated", "three_build_blocks", "peer_unpadded_base64url",
-          "empty_payload", "binary_affix", "session_population", "transform_without_initial_request", "sibling_configuration"]
+          "empty_payload", "binary_affix", "session_population", "transform_without_initial_request", "sibling_configuration",
+          "payload_over_64k", "three_build_blocks_tuple_level"]
 RULE = ("seeded plans: 85% exchange plans - three programs (every ordering/repetition of the seven encoders up to length 6, "
         "prepend/append arguments incl. empty and binary, each termination kind, 1-3 build blocks, static headers/"
         "parameters) compiled to the binary setting encoding, 4-10 messages with payloads of 0-4096 bytes and arbitrary "
@@ -45,6 +46,8 @@ STUB = ["reference codec (independent interpreter)", "configuration builder", "s
 
 def _gen_any_program(rng, kind):
     """Arbitrary (not necessarily wire-safe) client program."""
+    # (the binary setting encoding knows BUILD 0/1 only: metadata for http-get, id / output for http-post; programs with all
+    # three items are exercised at the tuple level, see _combined_program)
     if kind == "get":
         builds = rng.choice([["metadata"], ["metadata"], ["metadata", "output"]])
     else:
@@ -57,7 +60,10 @@ def _gen_any_program(rng, kind):
             if n.lower() in names:
                 continue
             names.add(n.lower())
-            steps.append(["_header", hx(f"{n}: {_word(rng, 0, 9)}".encode())])
+            v_ = _word(rng, 0, 9)
+            if rng.random() < 0.2:
+                v_ = rng.choice(["id: 42", "a: b: c", ": x", "x: "]) + v_      # values that themselves contain colon-space
+            steps.append(["_header", hx(f"{n}: {v_}".encode())])
         else:
             n = "s" + _word(rng, 1, 5)
             if n in names:
@@ -105,9 +111,14 @@ def generate(rng, tier, index):
         if prog == "server":
             vals = {"output": hx(_payload(rng))}
         elif prog == "get":
-            vals = {"metadata": hx(_payload(rng, 300)), "output": hx(_payload(rng, 300))}
+            vals = {"metadata": hx(_payload(rng, 300)), "output": hx(_payload(rng, 300)), "id": hx(_payload(rng, 12))}
         else:
-            vals = {"id": hx(rng.choice([str(rng.getrandbits(31)).encode(), _payload(rng, 20)])), "output": hx(_payload(rng))}
+            vals = {"id": hx(rng.choice([str(rng.getrandbits(31)).encode(), _payload(rng, 20)])), "output": hx(_payload(rng)),
+                    "metadata": hx(_payload(rng, 200))}
+        if rng.random() < 0.02:
+            # a payload of more than 64 KiB (chunk-wise implementations of the encoders must keep their phase)
+            big = {"gen": [rng.getrandbits(24), rng.choice([65535, 65536, 65537, 70001, 131075])]}
+            vals["output"] = big
         initial = {"none": rng.random() < 0.3,
                    "uri": hx(rng.choice([b"", b"", b"/load", b"/a/b.php", b"/", b"/api/", b"/x/y/", _payload(rng, 8)])),
                    "headers": [[hx(b"User-Agent"), hx(b"UA/1.0")]] if rng.random() < 0.6 else [],
@@ -145,6 +156,62 @@ def _sig(direction, kind, exc, sigtail, uri_nonempty):
     if exc is not None:
         return ("C04", direction, kind, type(exc).__name__) + tuple(sigtail)
     return ("C04", direction, kind) + tuple(sigtail)
+
+
+def _combined_program(res, cfg, bc, messages):
+    """One transform over the steps of the http-get AND the http-post program (as the library parsed them from the
+    settings): a program with three build blocks - metadata, id and output - in one of the two orders, which only the
+    tuple-level API can express."""
+    from dissect.cobaltstrike.c2 import C2Data, HttpDataTransform, HttpRequest
+    g, p_ = cfg["get"], cfg["post"]
+    builds = [s_[1] for s_ in g + p_ if s_[0] == "build"]
+    if sorted(builds) != ["id", "metadata", "output"]:
+        return
+    terms = [s_[0] for s_ in g + p_ if s_[0] in ("print", "uri_append")]
+    names = [rc.arg(s_).lower() for s_ in g + p_ if s_[0] in ("header", "parameter")] + \
+            [rc.arg(s_).partition(b": ")[0].lower() for s_ in g + p_ if s_[0] in ("_header", "_hostheader")] + \
+            [rc.arg(s_).partition(b"=")[0].lower() for s_ in g + p_ if s_[0] == "_parameter"]
+    if len(terms) != len(set(terms)) or len(names) != len(set(names)):
+        return
+    m = next((m_ for m_ in messages if m_["prog"] == "post"), None)
+    if m is None:
+        return
+    order = len(messages) % 2
+    steps = (g + p_) if order else (p_ + g)
+    lib_steps = (list(bc.settings["SETTING_C2_REQUEST"]) + list(bc.settings["SETTING_C2_POSTREQ"])) if order else \
+        (list(bc.settings["SETTING_C2_POSTREQ"]) + list(bc.settings["SETTING_C2_REQUEST"]))
+    vals = {k: (unhx(v) if isinstance(v, str) else _big(v)) for k, v in m["values"].items()}
+    want = {"metadata": vals.get("metadata", b"M"), "id": vals.get("id", b"1"), "output": vals.get("output", b"")}
+    res.probes["three_build_blocks_tuple_level"] += 1
+    sigtail = ("combined", "order=" + ("get+post" if order else "post+get"))
+    try:
+        t = HttpDataTransform(steps=lib_steps)
+        req = t.transform(C2Data(metadata=want["metadata"], id=want["id"], output=want["output"]),
+                          request=HttpRequest(method=b"POST", uri=b"", params={}, headers={}, body=b""))
+        back = rc.ref_decode_request(steps, req.uri, list(req.params.items()), list(req.headers.items()), req.body, [b""], uri_pct=False)
+        if back != want:
+            res.violate(("C04", "lib_to_ref", "wrong_data") + sigtail, f"three-block program {steps}: reference decodes {sorted(k for k in want if back.get(k) != want[k])} differently")
+        got = t.recover(req)
+        gotd = {"metadata": got.metadata, "id": got.id, "output": got.output}
+        if any((gotd[k] or b"") != want[k] for k in want):
+            res.violate(("C04", "lib_roundtrip", "wrong_data") + sigtail,
+                        f"three-block program {steps}: recover(transform(x)) loses {sorted(k for k in want if (gotd[k] or b'') != want[k])}")
+        nm = sum(1 for s_ in steps if s_[0] == "mask")
+        method, uri, params, headers, body = rc.ref_encode_request(steps, want, b"POST", b"", [], [b"\x01\x02\x03\x04"] * nm, m["strip_pad"])
+        got = t.recover(HttpRequest(method=method, uri=uri, params=dict(params), headers=dict(headers), body=body))
+        gotd = {"metadata": got.metadata, "id": got.id, "output": got.output}
+        if any((gotd[k] or b"") != want[k] for k in want):
+            res.violate(("C04", "ref_to_lib", "wrong_data") + sigtail,
+                        f"three-block program {steps}: library recovers {sorted(k for k in want if (gotd[k] or b'') != want[k])} differently from a reference-encoded message")
+    except rc.RefDecodeError as e:
+        res.violate(("C04", "lib_to_ref", "undecodable") + sigtail, f"three-block program {steps}: {e}")
+    except Exception as e:  # noqa: BLE001
+        res.violate(("C04", "lib_transform_raised", type(e).__name__) + sigtail, f"three-block program {steps}: {e!r}")
+
+
+def _big(v):
+    from dst.storage.builder import prng_bytes
+    return prng_bytes(v["gen"][0], v["gen"][1])
 
 
 def _sibling(cfg):
@@ -202,7 +269,9 @@ def _exchange(res, cfg, messages, probes):
             prog = m["prog"]
             steps = cfg[prog]
             t = tf[prog]
-            vals = {k: unhx(v) for k, v in m["values"].items()}
+            vals = {k: (unhx(v) if isinstance(v, str) else _big(v)) for k, v in m["values"].items()}
+            if any(not isinstance(v, str) for v in m["values"].values()):
+                res.probes["payload_over_64k"] += 1
             builds = [s[1] for s in steps if s[0] == "build"] if prog != "server" else ["output"]
             want = {b: vals.get(b, b"") for b in builds}
             if not any(want.values()):
@@ -320,6 +389,7 @@ def _exchange(res, cfg, messages, probes):
                 res.violate(_sig("ref_to_lib", "raised", e, sigtail, uri_nonempty),
                             f"library recover raised {e!r} on a reference-encoded {prog} message; program {steps}; "
                             f"initial uri {unhx(ini['uri'])!r}")
+        _combined_program(res, cfg, bc, messages)
         # ---- history check: messages produced earlier must still decode to what was put in (no shared mutable state)
         for mi, prog, steps, req, want, base in produced:
             try:
@@ -374,7 +444,8 @@ def candidates(plan: dict):
                 yield core._set(plan, ["config", prog, j], [st[0], st[1][:2]])
     for i, m in enumerate(plan["messages"]):
         for k in m["values"]:
-            yield from core.shrink_hex(plan, ["messages", i, "values", k])
+            if isinstance(m["values"][k], str):
+                yield from core.shrink_hex(plan, ["messages", i, "values", k])
         yield from core.shrink_hex(plan, ["messages", i, "initial", "uri"])
         if m["initial"]["headers"]:
             yield core._set(plan, ["messages", i, "initial", "headers"], [])
